@@ -269,8 +269,8 @@ def units(tier):
         Unit("random-binary", check, strategy=lambda: cases(12, ["bu", "bd"]), examples=(3000, 96000), shards=(8, 16)),
         Unit("random-weighted", check, strategy=lambda: cases(10, ["wu", "wd"]), examples=(4000, 160000), shards=(8, 16)),
         Unit("random-signed", check, strategy=lambda: cases(10, ["sign"]), examples=(2000, 80000), shards=(8, 16)),
-        Unit("random-n<=40", check, strategy=lambda: cases(40, ["bu", "bd", "wu", "wd"]), examples=(80, 1600), shards=(8, 16)),
-        Unit("random-n>100", check, strategy=lambda: cases(130, ["bu", "wu", "bu", "bd"], nmin=101), examples=(40, 320), shards=(8, 16)),
+        Unit("random-n<=40", check, strategy=lambda: cases(40, ["wu", "bd", "bu", "wd"]), examples=(320, 3200), shards=(16, 16)),
+        Unit("random-n>100", check, strategy=lambda: cases(130, ["wu", "bu", "wd", "bd", "wu"], nmin=101), examples=(160, 800), shards=(16, 16)),
     ]
     if tier == "thorough":
         us.append(Unit("sampled-digraphs-n5", check, count=lambda t: _D5.total // 8, cases=_d5, shards=(16, 32),
